@@ -75,8 +75,8 @@ def _rho_of(vec: np.ndarray) -> np.ndarray:
     return np.outer(v, v.conj())
 
 
-def reference_distribution(circuit, qubit_order, initial_state=0, max_branches=4096):
-    ref = QRef(qubit_order, max_branches=max_branches)
+def reference_distribution(circuit, qubit_order, initial_state=0, max_branches=4096, record_channels=True):
+    ref = QRef(qubit_order, max_branches=max_branches, record_channels=record_channels)
     branches = ref.run(circuit, initial_state)
     return ref, branches
 
@@ -90,12 +90,13 @@ def _last_instance_key(merged_key, channel=False):
 
 
 def check_run(P: str, circuit, cfg: SimConfig, reps: int, ctx, max_leaves: int,
-              entry: str = "run", channel_keys=(), ref_circuit=None, param_resolver=None) -> int:
+              entry: str = "run", channel_keys=(), ref_circuit=None, param_resolver=None, stats=None) -> int:
     """Entry points run / run_sweep / sample: the joint distribution of Result.records."""
     qubits = sorted(circuit.all_qubits())
     ref_c = ref_circuit if ref_circuit is not None else circuit
     try:
-        _, branches = reference_distribution(ref_c, sorted(ref_c.all_qubits()) or qubits)
+        _, branches = reference_distribution(ref_c, sorted(ref_c.all_qubits()) or qubits,
+                                             record_channels=(cfg.kind != "dm"))
     except Unsupported as e:
         raise HarnessError(f"generator emitted something the reference does not model: {e}")
     merged = merge_by_records(branches)
@@ -125,6 +126,7 @@ def check_run(P: str, circuit, cfg: SimConfig, reps: int, ctx, max_leaves: int,
         ctx.probe("tree-too-large")
         return 0
     tol = cfg.tol()
+    _count_draws(leaves, stats)
     w_sim: Dict[Tuple, float] = {}
     total = 0.0
     for w, result, _trace in leaves:
@@ -146,6 +148,19 @@ def check_run(P: str, circuit, cfg: SimConfig, reps: int, ctx, max_leaves: int,
                             f"{w:.7f} under the simulator but {expect:.7f} by the Born rule "
                             f"(reference support: {[(_fmt_key(k), round(p, 6)) for k, p in sorted(p_ref.items())][:12]})\n{circuit}")
     return n
+
+
+def _count_draws(leaves, stats) -> None:
+    if stats is None:
+        return
+    for _w, _res, trace in leaves:
+        for kind, probs, _o in trace:
+            if kind == "uniform<cum":
+                stats["uniform"] = stats.get("uniform", 0) + 1
+            elif kind == "choice":
+                stats["choice"] = stats.get("choice", 0) + 1
+            elif kind == "randint":
+                stats["randint"] = stats.get("randint", 0) + 1
 
 
 def _fmt_key(k) -> str:
@@ -187,12 +202,12 @@ def check_rho_valid(P: str, rho: np.ndarray, tol: float, where: str) -> None:
 
 def check_simulate(P: str, circuit, cfg: SimConfig, ctx, max_leaves: int, qubit_order=None, initial_state=0,
                    ref_initial=None, stepwise: bool = False, sample_in_steps: bool = False,
-                   ref_circuit=None, phase_exact: bool = True) -> int:
+                   ref_circuit=None, phase_exact: bool = True, stats=None, boundary_call=None) -> int:
     """Entry points simulate / simulate_moment_steps: joint law of (measurements, final state)."""
     qubit_order = list(qubit_order or sorted(circuit.all_qubits()))
     ref_c = ref_circuit if ref_circuit is not None else circuit
     try:
-        ref = QRef(qubit_order)
+        ref = QRef(qubit_order, record_channels=(cfg.kind != "dm"))
         branches = ref.run(ref_c, initial_state if ref_initial is None else ref_initial)
     except Unsupported as e:
         raise HarnessError(f"generator emitted something the reference does not model: {e}")
@@ -237,6 +252,28 @@ def check_simulate(P: str, circuit, cfg: SimConfig, ctx, max_leaves: int, qubit_
         ctx.probe("tree-too-large")
         return 0
     n = len(leaves)
+    _count_draws(leaves, stats)
+    # boundary draw (buggify site `boundary-u`): a uniform draw so close to 1 that, after rounding, no
+    # Kraus branch is selected.  The documented behaviour is to fall back to the most likely branch, so
+    # the leaf must still be a normalised state that one of the regular branches also produces.
+    if boundary_call is not None and cfg.kind == "sv" and stats is not None and stats.get("uniform"):
+        prng = ScriptedPRNG([])
+        prng.force_fallback_call = boundary_call
+        meas_b, rho_b, vec_b = leaf(prng)
+        if prng.fallback_forced:
+            stats["fallback"] = stats.get("fallback", 0) + 1
+            nrm = float(np.trace(rho_b).real)
+            if abs(nrm - 1) > tol * 8:
+                raise Violation(f"{P}-BRANCH", f"[{cfg.describe()}] after a boundary uniform draw (fallback branch) "
+                                               f"the state has norm^2 {nrm:.6f}\n{circuit}")
+            kb = tuple(sorted(meas_b.items()))
+            cands = [r for _w, (m2, r, _v), _t in leaves]
+            if not any(float(np.max(np.abs(r - rho_b))) <= tol * 20 for r in cands):
+                # the fallback leaf continues with its own later draws (first viable outcome each); it must
+                # coincide with the regular leaf that took the same branch at the forced draw
+                raise Violation(f"{P}-BRANCH", f"[{cfg.describe()}] the fallback branch taken after a boundary "
+                                               f"uniform draw leads to a state that no regular branch produces "
+                                               f"(measurements {dict(kb)})\n{circuit}")
     sim_groups: Dict[Tuple, List] = {}
     total = 0.0
     for w, (meas, rho, vec), _trace in leaves:
